@@ -933,6 +933,8 @@ static void _process_action(Device * dev, struct timeval *timeout)
                     _act_completion(act, dev);
                 _destroy_action(list_dequeue(dev->acts));
                 dev->stat_successful_actions++;
+                /* the next action must not see this one's match */
+                xregex_match_recycle(dev->xmatch);
             }
 
         /* most recently attempted stmt completed with error */
@@ -942,6 +944,7 @@ static void _process_action(Device * dev, struct timeval *timeout)
             if (act->complete_fun)
                 _act_completion(act, dev);
             _destroy_action(list_dequeue(dev->acts));
+            xregex_match_recycle(dev->xmatch);
 
             /* if one action failed, abort the rest in the device queue
              * in preparation for reconnect.
